@@ -1,6 +1,7 @@
 // hC16: correspondence harness for property C16 (a scenario means the same in HCL and in YAML).
 //
-// Case line:   scn <tree>          (and `loc <blocks> <body>`: the locals stage, see locals.go)
+// Case line:   scn <tree>          (and `loc <blocks> <body>`: the locals stage, see locals.go; `ext <name> <how> <tree>`:
+//                                  format selection by the file name, see genExt)
 // <tree> is the scenario description as a generic value tree with the DOCUMENTED keys
 // (variable_sources/requests/calls/scenarios, name, type, file, ..., see docs/eng/scenario-*.md), in the token
 // syntax of harness/internal/a16schema/value.go.  The harness prints it as YAML and as HCL (plain, and a variant
@@ -849,8 +850,19 @@ func genDesc(r *vh.Rand, size int) *s.V {
 						opt(r, p, "status_code", func() *s.V { return s.Int(int64(r.PickInt([]int{0, 200, 404, 599}))) })
 						opt(r, p, "size", func() *s.V {
 							sz := s.Map()
-							opt(r, sz, "val", func() *s.V { return s.Int(int64(r.PickInt([]int{0, 1, 40, 100000}))) })
-							sz.M = append(sz.M, s.KV{"op", s.Str([]string{"eq", "=", "lt", "<", "gt", ">"}[r.Intn(6)])})
+							opt(r, sz, "val", func() *s.V {
+								if r.Intn(12) == 0 {
+									return s.Int(-1) // refused by the constructor of assert/response, in both syntaxes
+								}
+								return s.Int(int64(r.PickInt([]int{0, 1, 40, 100000})))
+							})
+							switch r.Intn(12) {
+							case 0: // not an operator: refused by the constructor, in both syntaxes
+								sz.M = append(sz.M, s.KV{"op", s.Str([]string{"!=", "EQ", "", "<=", pickStr(r)}[r.Intn(5)])})
+							case 1: // no operator at all
+							default:
+								sz.M = append(sz.M, s.KV{"op", s.Str([]string{"eq", "=", "lt", "<", "gt", ">"}[r.Intn(6)])})
+							}
 							return sz
 						})
 						pl.L = append(pl.L, p)
@@ -939,11 +951,83 @@ func gen(r *vh.Rand, tier string) []string {
 	for i := 0; i < n; i++ {
 		out = append(out, "scn "+genDesc(r, 1+i%4).Token())
 	}
+	// format selection by the file name
+	for i := 0; i < n/5; i++ {
+		out = append(out, genExt(r))
+	}
 	// the locals stage: programs over 1..6 locals blocks (locals.go)
 	for i := 0; i < n*2/3; i++ {
 		out = append(out, genLoc(r))
 	}
 	return out
+}
+
+// Case kind `ext`: ext <file name, hex> <m|x|a> <tree>  -- ReadAmmoConfig chooses the front-end by the file name.
+// m: the file holds the description in the syntax the name selects (YAML when it selects none); x: in the other
+// syntax; a: the file does not exist.  Observation: r=<dump|err>
+var extNames = []string{"scenario.hcl", "SCENARIO.HCL", "s.Hcl", "scenario.yaml", "S.YAML", "s.Yaml", "scenario.yml", "S.YML", "s.yMl",
+	"x.yaml.hcl", "x.hcl.yaml", "x.hcl.yml", "x.yml.hcl", ".hcl", ".yaml", ".yml", "dir.hcl/s.yaml", "dir.yaml/s.hcl", "dir.yml/S.HCL",
+	"s.hcl.txt", "s.yaml.bak", "hcl", "yaml", "s.json", "s.yamlx", "s.hcl2", "s.yml ", "s.hcl.", "s.tf", "shcl", "s_yaml", "s.ya ml", "scenario"}
+
+func genExt(r *vh.Rand) string {
+	name := extNames[r.Intn(len(extNames))]
+	how := "m"
+	switch r.Intn(8) {
+	case 0:
+		how = "x"
+	case 1:
+		how = "a"
+	}
+	if r.Intn(30) == 0 {
+		name = ""
+	}
+	return "ext " + vh.Hex([]byte(name)) + " " + how + " " + genDesc(r, 1+r.Intn(2)).Token()
+}
+
+func isHCLName(name string) bool {
+	base := name[strings.LastIndex(name, "/")+1:]
+	return strings.HasSuffix(strings.ToLower(base), ".hcl")
+}
+
+func (rn *runner) runExt(f []string) (res string) {
+	defer func() {
+		if r := recover(); r != nil {
+			res = "r=panic"
+		}
+	}()
+	if len(f) != 4 {
+		return "badcase"
+	}
+	nameBytes := vh.UnHex(f[1])
+	tree, err2 := s.ParseToken(f[3])
+	if err2 != nil {
+		return "badcase"
+	}
+	name := string(nameBytes)
+	path := ""
+	if name != "" {
+		path = "/a16ext/" + name
+	}
+	hcl := isHCLName(name)
+	if f[2] == "x" {
+		hcl = !hcl
+	}
+	text := toYAML(tree)
+	if hcl {
+		text = toHCL(tree, false, vh.NewRand(1))
+	}
+	s.Fs.RemoveAll("/a16ext")
+	if f[2] != "a" && path != "" {
+		afero.WriteFile(s.Fs, path, []byte(text), 0o644)
+	}
+	cfg, rerr := scnconfig.ReadAmmoConfig(s.Fs, path)
+	if rerr != nil {
+		if os.Getenv("A16_DEBUG") != "" {
+			fmt.Fprintln(os.Stderr, name, "ERR:", rerr)
+		}
+		return "r=err"
+	}
+	return "r=" + rn.lab.DumpDetailed(rn.node, reflect.ValueOf(cfg).Elem())
 }
 
 // ---------------------------------------------------------------------------------------------
@@ -1025,6 +1109,10 @@ func run(cases []string) []string {
 		f := strings.Split(c, " ")
 		if f[0] == "loc" {
 			out = append(out, rn.runLoc(f))
+			continue
+		}
+		if f[0] == "ext" {
+			out = append(out, rn.runExt(f))
 			continue
 		}
 		if len(f) != 2 || f[0] != "scn" {
